@@ -127,6 +127,15 @@ def make_case(r, lexical_corner=False):
                                    quoted=lexical_corner)
     text = workload.render_with_noise(r, script.nested(),
                                       comments=True)
+    wide = not lexical_corner and r.random() < 0.1
+    if wide:
+        # many small commands: ddmin takes its parallel path only while there
+        # are more than 2*jobs subsets
+        n = r.choice([24, 32, 48])
+        lines = [f'(assert (f{i} a{i} (g{i} b{i})))' for i in range(n)]
+        for k in range(r.randint(0, 3)):
+            lines.insert(r.randint(0, n), f'(declare-const d{k} Int)')
+        text = '\n'.join(lines) + '\n(check-sat)\n'
     if lexical_corner:
         # a separately counted slice with lexical corner cases (owned by
         # C07/C08 but they must not break the end-to-end guarantee either)
@@ -135,7 +144,7 @@ def make_case(r, lexical_corner=False):
                           '(push 1)(pop 1)\n'])
     rules, pred = workload.pick_spec(r, text,
                                      nclasses=r.choice([2, 2, 3]))
-    unbalanced = lexical_corner and r.random() < 0.4
+    unbalanced = lexical_corner and r.random() < 0.5
     if unbalanced:
         # the failure is one of the *shape* of the file (a command cut off at
         # the end, a parenthesis too many): ddSMT reads such a file
@@ -169,6 +178,9 @@ def make_case(r, lexical_corner=False):
                              else ['--ignore-out']])
     strat = r.choice(workload.STRATEGIES)
     j = r.choice([1, 1, 2, 4, 8])
+    if wide:
+        strat = r.choice(['ddmin', 'hybrid'])
+        j = r.choice([2, 3, 4])
     opts = ['--strategy', strat, '-j', str(j), '--timeout', '20']
     opts += workload.format_options(r) + cmp_opts
     cc_rules = None
@@ -193,6 +205,7 @@ def make_case(r, lexical_corner=False):
         'delay': delay,
         'lexical_corner': lexical_corner,
         'unbalanced_input': unbalanced,
+        'wide': wide,
         'cc_same_basename': same_basename,
         'non_text_output': nontext,
     }
@@ -211,6 +224,8 @@ def run_case(res, r, wd, case):
         res.count('runs_with_non_text_command_output')
     if desc.get('unbalanced_input'):
         res.count('runs_on_unbalanced_input')
+    if desc.get('wide'):
+        res.count('runs_on_wide_inputs')
     verdict = judge_run(res, r, run, rules, cc_rules, cmp_opts, cc_ignore,
                         desc)
     res.count(f'verdict_{verdict}')
